@@ -59,13 +59,14 @@ PROPS = {
         "level_text": "FULL on the operation semantics: unbounded theorems for title/status (last writer), labels (strictly sorted set; "
                       "additions then removals), comments (one per create/add-comment; an edit rewrites exactly the targeted comment; unknown, "
                       "non-comment and wrong-target edits are no-ops), actors/participants (no duplicates), timeline (one entry per state-"
-                      "changing operation, full edit history), immutable extra metadata, and incremental = from-scratch compilation",
+                      "changing operation, full edit history), immutable extra metadata, incremental = from-scratch compilation, and recompiling a compiled snapshot's operations gives the same snapshot (extras included)",
         "level_note": "Trusted: Lean kernel, harness/comparer. The model is hand-written and validated against Bug.Compile and the cache's "
                       "incremental snapshot on generated sequences. Two defects found by this check were repaired in /repo (see known_findings.json).",
         "required_theorems": ["compile_append", "compile_append_list", "title_spec", "status_spec", "labels_sorted_nodup", "labels_spec",
                               "step_labels_other", "comments_count", "edit_unknown_noop", "edit_noncomment_noop", "edit_wrong_target_noop",
                               "editComments_spec", "editComments_keeps", "actors_participants_nodup", "timeline_spec",
-                              "CItem_append_history", "metadata_immutable", "setMetadata_only_extra", "noop_changes_nothing"],
+                              "CItem_append_history", "metadata_immutable", "setMetadata_only_extra", "noop_changes_nothing",
+                              "compile_ignores_extras", "compile_repeatable"],
         "slices": ["C10"],
         "rule": "random operation sequences (length 0..25 quick / 0..120 thorough) built from the operation constructors over all 8 kinds, "
                 "incl. edits of valid / unknown / non-comment / 14-character-colliding targets, label changes with duplicates and absent "
